@@ -674,3 +674,73 @@ func VerifC18WriteDuringRun(h *verifh.H) {
 	h.Assert(vContains(afterWrite, "ns0:m2"), "a main entity joined to a dependency entity written during a run is emitted by the time the job has caught up :: after the write="+vJoinS(afterWrite))
 	h.Observe("after", vJoinS(afterWrite))
 }
+
+// VerifC18FailedInitialLoad: a living incremental MultiSource job (one
+// pipeline and source object for all runs, as a scheduled job has) whose very
+// first run — the initial load — fails at its first, second or third sink
+// call, or not at all. The following runs succeed and reach stable tokens.
+// Then an entity of the dependency dataset that a main entity is joined to
+// changes: by the time the tokens are stable again that main entity has been
+// emitted after the change, whatever happened to the initial load.
+func VerifC18FailedInitialLoad(h *verifh.H) {
+	hub := server.VerifNewHub(h)
+	M, _ := hub.Dsm.CreateDataset("M", nil)
+	D, _ := hub.Dsm.CreateDataset("D", nil)
+	mk := func(id, tag, ref string) *server.Entity {
+		e := server.NewEntity(id, 0)
+		e.Properties["ns0:tag"] = tag
+		if ref != "" {
+			e.References["ns0:p1"] = ref
+		}
+		return e
+	}
+	// three changes in the main dataset (three writes), m1 -p1-> a
+	h.Assert(M.StoreEntities([]*server.Entity{mk("ns0:m1", "t0", "ns0:a")}) == nil, "write M")
+	h.Assert(M.StoreEntities([]*server.Entity{mk("ns0:m2", "t0", "")}) == nil, "write M")
+	h.Assert(M.StoreEntities([]*server.Entity{mk("ns0:m3", "t0", "")}) == nil, "write M")
+	h.Assert(D.StoreEntities([]*server.Entity{mk("ns0:a", "t0", "")}) == nil, "write D")
+	ms := &source.MultiSource{DatasetName: "M", Store: hub.Store, DatasetManager: hub.Dsm, Logger: hub.Env.Logger}
+	ms.Dependencies = []source.Dependency{{Dataset: "D", Joins: []source.Join{{Dataset: "M", Predicate: "ns0:p1", Inverse: true}}}}
+	sink := &vSink{failBatch: h.Choice("failCall", 4) - 1, failing: map[string]bool{}}
+	pl := &IncrementalPipeline{PipelineSpec{source: ms, sink: sink, batchSize: 1 + h.Choice("batchSize", 2)}}
+	j := &job{id: "ms-job", title: "ms-job", pipeline: pl, runner: vRunner(hub, 1, 1)}
+	// the initial load (may fail)
+	_, _ = pl.sync(j, context.Background())
+	sink.failBatch = -1
+	var after []string
+	changed := false
+	runToFixpoint := func() {
+		last := "?"
+		for r := 0; r < 8; r++ {
+			n0 := len(sink.delivered)
+			_, err := pl.sync(j, context.Background())
+			h.Assert(err == nil, "later runs succeed")
+			if changed {
+				for _, e := range sink.delivered[n0:] {
+					after = append(after, e.ID)
+				}
+			}
+			st := &SyncJobState{}
+			_ = hub.Store.GetObject(server.JobDataIndex, "ms-job", st)
+			if st.ContinuationToken == last {
+				break
+			}
+			last = st.ContinuationToken
+		}
+	}
+	runToFixpoint()
+	for _, id := range []string{"ns0:m1", "ns0:m2", "ns0:m3"} {
+		found := false
+		for _, e := range sink.delivered {
+			if e.ID == id {
+				found = true
+			}
+		}
+		h.Assert(found, "every main entity has been emitted once the job has caught up :: "+id)
+	}
+	changed = true
+	h.Assert(D.StoreEntities([]*server.Entity{mk("ns0:a", "t1", "")}) == nil, "dependency entity changes")
+	runToFixpoint()
+	h.Assert(vContains(after, "ns0:m1"), "after a change to a dependency entity the main entity joined to it is emitted by the time the job has caught up, also when the initial load had failed :: after the change="+vJoinS(after))
+	h.Observe("after", vJoinS(after))
+}
